@@ -42,11 +42,36 @@ THEOREMS = [
     "C04.parseRules_render_full",
     "C04.parseRules_render_layout_comments",
     "C04.ruleOf_mapW",
+    "C04.parseSingleCondition_cmp",
+    "C04.parseValue_str_at",
+    "C04.parseValue_float",
+    "C04.parseValue_ref",
+    "C04.Lit.parse",
+    "C04.parseAction_assign",
+    "C04.parseAction_append",
+    "C04.parseAction_minus_assign",
+    "C04.parseAction_call",
+    "C04.parseAction_log",
+    "C04.parseAction_retract",
+    "C04.parseAction_schedule_int",
+    "C04.parseAction_activate",
+    "C04.parseAction_complete",
+    "C04.parseAction_custom",
+    "C04.parseAction_wfdata_finding",
+    "C04.parseAction_methodcall_finding",
+    "C04.parseSingleCondition_not_contains_error",
+    "C04.CLeaf.parse",
+    "C04.CStmt.parse",
+    "C04.CLeaf.roundtrip",
+    "C04.CStmt.roundtrip",
+    "C04.LT.sem_map_leaves",
+    "C04.leavesOk_core",
+    "C04.parseRules_render_core",
 ]
-LEAN_TARGETS = ["RreModel.C04.Theorems", "RreModel.C04.Theorems2", "RreModel.C04.Theorems3", "RreModel.C04.Theorems4", "RreModel.C04.Theorems5", "RreModel.C04.Theorems6"]
+LEAN_TARGETS = ["RreModel.C04.Theorems", "RreModel.C04.Theorems2", "RreModel.C04.Theorems3", "RreModel.C04.Theorems4", "RreModel.C04.Theorems5", "RreModel.C04.Theorems6", "RreModel.C04.Theorems7", "RreModel.C04.Theorems8"]
 N = {"quick": 2300, "thorough": 40000}
 EXHAUSTIVE = {"quick": False, "thorough": False}
-RULE = ("cases = corpus (witness of every fixed defect and of every open finding) + every subset of the seven rule attributes in a "
+RULE = ("cases = corpus (witness of every fixed defect and of every open finding; boundary.case: boundary numbers - 0, +-1, 2^31+-1, 2^53+-1, i64::MIN/MAX as Set / += / call-argument / array-element / comparison values, salience at the i32 ends, ScheduleRule delays incl. NEGATIVE integer literals (`i as u64`: -1 -> 2^64-1), integers just outside i64 (become f64), float spellings 1e300 / 5e-324 / -0.0 / 1e21 / 1e+21 / 1E21 in four positions) + every subset of the seven rule attributes in a "
         "shuffled order + string concatenations (operands: string literals of both quote kinds incl. empty / metacharacter / placeholder "
         "look-alike bodies, dotted fields, identifiers, numbers, joined by `+`): every shape that starts AND ends with a literal "
         "(L+F+L, L+L, L+L+L, L+I+L, L+N+L, L+F+L+F+L) with both quote kinds, and a sample of the one-sided / field-first / mixed-quote "
@@ -123,8 +148,14 @@ LEVEL_NOTE = ("Whole files (Theorems3): splitRules_render / parseRule_render / p
               "condition TREE and statement LIST as written, leaf parsers' results at the leaves; hypotheses: one line per rule, no comments, "
               "no `}` / ` then ` outside literals (comments between rules with arbitrary text: parseRules_render_comments). Any layout (Theorems6): cleanText_units / cleanText_layout — clean_text turns every white-space slot with a line break into one blank and leaves tokens and the other slots untouched; parsePreparedRule_layout / parseRules_render_full — whole files with line breaks in any slot (hypotheses: no line break inside a leaf / statement text, CodeOk also of the slot-normalised rules); parseRules_render_layout_comments — comments in any slot, given SC text (renderFile …) (SC.append / gap_sc build it); ruleOf_mapW — the expected rule does not depend on the layout. Leaves (Theorems4): "
               "parseSingleCondition_cmp_int / parseAction_set_int follow the leaf parsers on `Object.field op <i64>` / `field = <i64>` as written, "
-              "parseRules_render_int = the property's sentence with nothing abstract for that sub-grammar; the other leaf forms are covered by the "
-              "correspondence only. The renderer of these theorems (File.lean renderFile) is the one whose "
+              "parseRules_render_int = the property's sentence with nothing abstract for that sub-grammar. Leaf round trips (Theorems7/8): "
+              "parseSingleCondition_cmp (`Object.field OP value`, all eleven operators of the patterns, any value text), Lit.parse (i64, strings with arbitrary "
+              "bodies at any table offset, booleans, null, floats as the parameter Ext.parseF64, dotted references), parseAction_assign / _append / "
+              "_minus_assign / _call / _log / _retract / _schedule_int (delay = `i as u64` for the whole i64 range) / _activate / _complete / _custom, "
+              "CLeaf.roundtrip / CStmt.roundtrip (as written -> mask -> leaf parser = documented meaning), parseRules_render_core = the property's sentence for "
+              "that core grammar with the expected rules computed from the source alone (ruleDoc); findings as theorems: parseAction_wfdata_finding, "
+              "parseAction_methodcall_finding, parseSingleCondition_not_contains_error; arrays, test(...) / function-call leaves and multifield patterns at the "
+              "leaves remain covered by the correspondence only. The renderer of these theorems (File.lean renderFile) is the one whose "
               "outputs the RF family feeds to the real parser: the oracle re-renders every RF case in Lean and compares (render-agrees). "
               "Partial: the regex capture layer is modelled by scanning functions and tied by the correspondence only. String literals "
               "are opaque by theorem: after mask_string_literals the round trips hold for literal bodies with arbitrary content "
